@@ -312,6 +312,7 @@ type vLiveCard struct {
 	// stops the collector but reports a driver error all the same
 	stopCollFaultAt int
 	stopCollCalls   int
+	stopAdapterDelay time.Duration
 }
 
 func (k *vLiveCard) ChangeRingBuffer(int, int) error { return nil }
@@ -326,6 +327,9 @@ func (k *vLiveCard) StartAdapter(int, int) error {
 	return nil
 }
 func (k *vLiveCard) StopAdapter() error {
+	if k.stopAdapterDelay > 0 { // a card that takes a while to stop its DMA engine
+		time.Sleep(k.stopAdapterDelay)
+	}
 	k.mu.Lock()
 	defer k.mu.Unlock()
 	if !k.adapOn {
